@@ -100,7 +100,7 @@ func orZero(s string) string {
 }
 
 func bases(thorough bool) []string {
-	majors := []string{"0", "1", "2", "9", "10", "99"}
+	majors := []string{"0", "1", "2", "9", "10", "99", "100", "1000"}
 	minors := []string{"0", "1", "9", "10"}
 	patches := []string{"0", "1", "8", "9", "10", "99", "199", "999", "18446744073709551615", "99999999999999999999", "100000000000000000000"}
 	pres := []string{"", "-0", "-1", "-a", "-B", "-a.0", "-0.a", "-a-b", "-9", "-10", "-pre", "-pre.1", "--", "-0-0", "-0.0", "-rc.0.1", "-0.20190101000000-abcdefabcdef", "-pre.0.20190101000000-abcdefabcdef"}
